@@ -50,19 +50,18 @@ def run(rep, tier, driver):
                 call["as_tuple"] = True
             order += xs
         if "file" in combo:
-            lines = []
+            raw = []
             for _ in range(rng.randint(0, 6)):
                 x = apigen.random_input(rng, vocab)
                 if not isinstance(x, str) or "\n" in x or "\r" in x or "\x00" in x:
                     x = rng.choice(apigen.GOOD)
-                pad = rng.choice(["", "", " ", "\t", "  "])
-                lines.append((pad + x + rng.choice(["", " ", "\t"]), x.strip()))
-            nl = rng.choice(["\n", "\n", "\r\n"])
-            text = nl.join(l for l, _ in lines)
-            if lines and rng.random() < 0.7:
+                raw.append(rng.choice(["", "", " ", "\t", "  "]) + x + rng.choice(["", " ", "\t"]))
+            nl = rng.choice(["\n", "\n", "\r\n", "\r"])
+            text = nl.join(raw)
+            if raw and rng.random() < 0.7:
                 text += nl
             call["file_lines"] = text
-            order += [x for _, x in lines]
+            order += apigen.file_lines_spec(text)
         if "generator" in combo:
             xs = [apigen.random_input(rng, vocab) for _ in range(rng.randint(0, 6))]
             call["generator"] = xs
@@ -119,7 +118,7 @@ def run(rep, tier, driver):
             single = [enc(c["glycan"])] if ("glycan" in c and not (isinstance(c["glycan"], dict) and "none" in c["glycan"])) else []
             req = {"op": "convert", "gen_fn": c["fn"] == "convert_generator",
                    "single": single, "list": [enc(x) for x in c.get("glycan_list", [])] if "glycan_list" in c else None,
-                   "file": [enc(x) for x in [l.strip() for l in c["file_lines"].splitlines()]] if "file_lines" in c else None,
+                   "file": [enc(x) for x in apigen.file_lines_spec(c["file_lines"])] if "file_lines" in c else None,
                    "gen": [enc(x) for x in c["generator"]] if "generator" in c else None,
                    "conv": {x: s for x, s in [(w[0], w[1]) for w in want] if isinstance(x, str)}}
             ans = driver.ask(req)
@@ -128,23 +127,36 @@ def run(rep, tier, driver):
             if mp != gp:
                 rep.broken.append("convert model: %r vs code %r on %r" % (mp, gp, c))
                 break
-    # running time on adversarial families (a measurement, not a theorem)
+    # running time on adversarial families (a measurement, not a theorem): sizes n, 2n, 4n per family; alarm only on
+    # super-polynomial growth: the last doubling multiplies the time by more than 16 (exponent > 4) while taking > 5 s
     fam = []
-    for n_ in ([10, 20, 40] if tier == "quick" else [10, 20, 40, 80]):
-        fam.append(("deep-chain", "Glc(a1-4)" * n_ + "Glc"))
-        fam.append(("wide-brackets", "Man(a1-2)" + "[Man(a1-3)[Man(a1-6)]Man(a1-4)]" * (n_ // 10) + "Man"))
-    for L in [500, 1000, 2000]:
-        fam.append(("soup", apigen.soup(rng, vocab, L)))
-        fam.append(("nested-brackets", "[" * (L // 20) + "Glc(a1-4)" + "]" * (L // 20) + "Glc"))
-        fam.append(("repeated-mods", "Glc" + "2Ac" * (L // 3)))
-    times = pmap(_timed, [s for _, s in fam], chunk=1)
-    rep.extra["timing_s"] = [{"family": f, "length": len(s), "seconds": round(t, 3)} for (f, s), t in zip(fam, times)]
-    for (f, s), t in zip(fam, times):
-        rep.case(canon=["timing", f, len(s)], nontrivial=False)
-        if t > 60 and len(s) <= 2000:
-            again = [_timed(s), _timed(s)]
-            if min(again) > 60:
-                rep.violation("input", {"iupac": s, "family": f}, {"seconds": [t] + again}, "<= 60 s for <= 2000 characters", key="slow:" + f)
+    scale = 1 if tier == "quick" else 2
+    for f, mk, n0 in [("deep-chain", lambda k: "Glc(a1-4)" * k + "Glc", 10 * scale),
+                      ("wide-brackets", lambda k: "Man(a1-2)" + "[Man(a1-3)[Man(a1-6)]Man(a1-4)]" * k + "Man", 1 * scale),
+                      ("nested-brackets", lambda k: "[" * k + "Glc(a1-4)" + "]" * k + "Glc", 25 * scale),
+                      ("repeated-mods", lambda k: "Glc" + "2Ac" * k, 40 * scale),
+                      ("mod-soup", lambda k: "".join("%d%s" % (1 + i % 9, ["Ac", "S", "Me", "P"][i % 4]) for i in range(k)) + "Glc", 40 * scale),
+                      ("soup", lambda k: apigen.soup(rng, vocab, k), 500),
+                      ("dash-soup", lambda k: "Glc" + "-" * k, 500),
+                      ("paren-soup", lambda k: "Glc" + "(a1-4)" * k, 80 * scale)]:
+        for mult in (1, 2, 4):
+            fam.append((f, mult, mk(n0 * mult)))
+    times = pmap(_timed, [s for _, _, s in fam], chunk=1)
+    rep.extra["timing_s"] = [{"family": f, "size_factor": m, "length": len(s), "seconds": round(t, 3)} for (f, m, s), t in zip(fam, times)]
+    byfam = {}
+    for (f, m, s), t in zip(fam, times):
+        rep.case(canon=["timing", f, m], nontrivial=False)
+        byfam.setdefault(f, {})[m] = (t, s)
+    growth = {}
+    for f, d in byfam.items():
+        r = d[4][0] / max(d[2][0], 1e-3)
+        growth[f] = round(r, 2)
+        if r > 16 and d[4][0] > 5:
+            again = _timed(d[4][1]) / max(_timed(d[2][1]), 1e-3)
+            if again > 16:
+                rep.violation("input", {"iupac": d[4][1], "family": f}, {"seconds": d[4][0], "ratio_on_doubling": [r, again]},
+                              "polynomial growth (time ratio on doubling the input <= 16)", key="slow:" + f)
+    rep.extra["time_ratio_on_last_doubling"] = growth
 
 
 def _spec_false(x):
